@@ -6,6 +6,7 @@ import (
 	"encoding/json"
 	"fmt"
 	"os"
+	"strings"
 	"sync/atomic"
 	"testing"
 
@@ -231,6 +232,10 @@ func TestVerifRaftx(t *testing.T) {
 	}()
 	for ci, cfg := range cfgs {
 		if ci%run.Shards != run.Shard {
+			continue
+		}
+		if f := os.Getenv("VERIF_ONLY_CFG"); f != "" && !strings.Contains(cfg.Name, f) {
+			res.Cap("development filter VERIF_ONLY_CFG is set")
 			continue
 		}
 		cfg := cfg
